@@ -87,6 +87,11 @@ func (x *Exec) verify() {
 		x.constrainParam(entry, v)
 		if pv, ok := v.(PtrVal); ok && pv.Obj != nil {
 			paramObjs = append(paramObjs, pv.Obj)
+			if fn.Signature.Recv() != nil && p == fn.Params[0] {
+				// a method is only ever verified for a non-nil receiver
+				x.assume(o.Not(pv.Nil))
+				x.note("assumed: receiver %s is not nil", p.Name())
+			}
 		}
 		entry.Regs[p] = v
 		x.params[p.Name()] = SVal{V: v, T: p.Type()}
@@ -171,6 +176,12 @@ func (x *Exec) verify() {
 				o.Not(x.evalClause(x.specEnv(x.entry, x.entry), fc.PanicsIff)))
 		}
 		x.frameObligations(r.St, paramObjs)
+		for k, v := range r.St.Ghost {
+			if strings.HasPrefix(k, "held:") {
+				x.oblige("lock", strings.TrimPrefix(k, "held:"), []string{"C19.lock"}, "lock state at exit equals lock state at entry", r.St.Guard,
+					o.Eq(v.(*Term), x.entry.Ghost[k].(*Term)))
+			}
+		}
 	}
 }
 
@@ -272,7 +283,13 @@ func (x *Exec) frameObligations(st *State, paramObjs []*Object) {
 	}
 }
 
-func (x *Exec) initGhost(st *State) {}
+func (x *Exec) initGhost(st *State) {
+	for _, pk := range x.w.Pkgs {
+		for _, mu := range pk.Contracts.Guarded {
+			st.Ghost["held:"+pk.Name+"."+mu] = x.o.False()
+		}
+	}
+}
 
 // ---- world-level driver ---------------------------------------------------------------------------------------
 
